@@ -71,6 +71,7 @@ void ds_history_end(vp_hist_t* h, const char* ctx) {
   }
   vp_hist_free(h);
   vp_progress();
+  vp_case();
 }
 
 int main(int argc, char** argv) {
